@@ -118,6 +118,37 @@ def eval_comp(case):
                 viol.append(V(f"routes-agree/{name}", f"m({p2}) - m({p1}): quadrature {dq:.10g}, {name} {d:.10g} "
                               f"({abs(d / dq - 1):.3g} relative)", case=dict(case, pair=[p1, p2]), observed=d,
                               expected=dq, tol=tol))
+    # off-node, non-integer end points and reference: the quadrature route against a harness-side Gauss-Legendre integral
+    # of 2p/(mu Z) built from the library's own viscosity and Z (40 panels x 8 points per pair), strictly increasing
+    xg, wg = np.polynomial.legendre.leggauss(8)
+
+    def gl(a, b):
+        edges = np.geomspace(a, b, 41)
+        tot = 0.0
+        for lo_, hi_ in zip(edges[:-1], edges[1:]):
+            xm, xr = 0.5 * (lo_ + hi_), 0.5 * (hi_ - lo_)
+            qs = xm + xr * xg
+            f = np.array([2 * q / (gas.viscosity_Sutton(T, float(q), tpc, ppc, g) * gas.z_factor_DAK(T, float(q), tpc, ppc)) for q in qs])
+            tot += xr * float(np.dot(wg, f))
+        return tot
+
+    off = [14.7 * np.sqrt(2.0), 123.4567, 1234.567, 8765.4321]
+    off = [q for q in off if q < pmax]
+    for a, b in zip(off[:-1], off[1:]):
+        evals += 1
+        got = gas.pseudopressure_Hussainy(T, b, tpc, ppc, g, pressure_standard=a)
+        want = gl(a, b)
+        if not abs(got / want - 1) <= 1e-7:
+            viol.append(V("quadrature/off-node", f"pseudopressure_Hussainy from {a:.9g} to {b:.9g} psia = {got!r}; Gauss-Legendre "
+                          f"integral of 2p/(mu Z) with the library's own mu and Z = {want!r} ({abs(got / want - 1):.3g} relative)",
+                          case=case, observed=got, expected=want, tol=1e-7))
+        up = gas.pseudopressure_Hussainy(T, b * (1 + 1e-6), tpc, ppc, g, pressure_standard=a)
+        mid = gas.pseudopressure_Hussainy(T, 0.5 * (a + b) + 0.123, tpc, ppc, g, pressure_standard=a) + \
+            gas.pseudopressure_Hussainy(T, b, tpc, ppc, g, pressure_standard=0.5 * (a + b) + 0.123)
+        if not (up > got and abs(mid / got - 1) <= 1e-8):
+            viol.append(V("quadrature/off-node", f"between {a:.9g} and {b:.9g} psia the quadrature route is not strictly increasing "
+                          f"(m(b(1+1e-6)) - m(b) = {up - got:.3g}) or not additive at a non-integer split ({abs(mid / got - 1):.3g})",
+                          case=case))
     for p1, p2, p3 in itertools.combinations(sorted(nodes), 3):
         evals += 1
         whole = H(p3, std=p1)
@@ -173,6 +204,7 @@ def eval_synth(case):
         f2 = np.max(np.abs(np.gradient(np.gradient(f(p), p), p)))
         tol = max(1e-12, 2 * float(np.sum(h**3) / 12 * f2) / exact_scale)  # trapezoid remainder bound (x2)
     before = (p_in.copy(), mu.copy(), z.copy())
+    fluid_mod.pseudopressure(p_in, mu * 1.7, z * 0.9)  # history: the same pressure array with another fluid first
     m = np.asarray(fluid_mod.pseudopressure(p_in, mu, z))
     if not (np.array_equal(before[0], p_in) and p_in.dtype == before[0].dtype and np.array_equal(before[1], mu) and np.array_equal(before[2], z)):
         viol.append(V("standalone/inputs-unmodified", "fluids.pseudopressure modified its inputs", case=case))
